@@ -590,7 +590,7 @@ wait:
 			fmt.Fprintln(fh, payload)
 			fh.Close()
 		}
-		if os.Getenv("C12_STACKS") != "" {
+		if os.Getenv("C12_STACKS") != "" { // diagnostics: goroutine dump of the stuck case
 			buf := make([]byte, 1<<20)
 			os.WriteFile(os.Getenv("C12_STACKS"), buf[:runtime.Stack(buf, true)], 0644)
 		}
